@@ -7,6 +7,7 @@ import (
 	"sync/atomic"
 	"time"
 
+	"github.com/go-git/go-git/v6/internal/verifhook"
 	"github.com/go-git/go-git/v6/x/fdpool"
 )
 
@@ -86,6 +87,7 @@ func NewWithPool(open func() (ReadAtCloser, error), gracePeriod time.Duration, p
 // after the FD is in hand, which registers the SharedFile on first
 // open and refreshes its LRU position on every subsequent acquire.
 func (s *SharedFile) Acquire() (ReadAtCloser, error) {
+	verifhook.Yield("sharedfile.Acquire:enter")
 	s.mu.Lock()
 	if s.closed {
 		s.mu.Unlock()
@@ -110,6 +112,7 @@ func (s *SharedFile) Acquire() (ReadAtCloser, error) {
 	file := s.file
 	pool := s.pool
 	s.mu.Unlock()
+	verifhook.Yield("sharedfile.Acquire:unlocked")
 
 	// Touch after releasing s.mu: SharedFile never holds s.mu
 	// while calling into the pool (see Acquire and Close), so
@@ -130,6 +133,7 @@ func (s *SharedFile) Acquire() (ReadAtCloser, error) {
 // the FD stays open and registered. The pool drives the eventual
 // close via [SharedFile.ReleaseNow] when capacity is exceeded.
 func (s *SharedFile) Release() {
+	verifhook.Yield("sharedfile.Release:enter")
 	s.mu.Lock()
 	defer s.mu.Unlock()
 
@@ -208,6 +212,7 @@ var _ fdpool.Pinnable = (*SharedFile)(nil)
 // pool's LRU before Close returns, so a racing eviction cannot
 // observe a freed Member.
 func (s *SharedFile) Close() error {
+	verifhook.Yield("sharedfile.Close:enter")
 	s.mu.Lock()
 	if s.closed {
 		s.mu.Unlock()
@@ -229,6 +234,7 @@ func (s *SharedFile) Close() error {
 	}
 	pool := s.pool
 	s.mu.Unlock()
+	verifhook.Yield("sharedfile.Close:unlocked")
 
 	if pool != nil {
 		pool.Forget(&s.poolHandle)
@@ -257,6 +263,7 @@ func (s *SharedFile) Close() error {
 // the deferred Close is discarded — Release has no return value
 // and the original ReleaseNow caller is no longer on the stack.
 func (s *SharedFile) ReleaseNow() error {
+	verifhook.Yield("sharedfile.ReleaseNow:enter")
 	s.mu.Lock()
 	defer s.mu.Unlock()
 
